@@ -1,5 +1,6 @@
 import SciVerif.Tie.Task
 import SciVerif.Props.C03
+import SciVerif.Tie.Pins
 /-! Tie A obligations for C03 on the current source. -/
 namespace SciVerif.Tie
 open SciVerif.TaskFS
@@ -30,7 +31,23 @@ theorem c03_converges_on_source (c : Cfg) (hist : List (Nat × Bool)) (m : Nat) 
       ∀ n, R (stepN taskSem c n (restart taskSem (cleanup s))) (stepN taskSem c n (freshStart taskSem c s.finalOut))) :=
   c03_converges taskSem generated_wf_c01_for_c03 generated_wf_c02_for_c03 generated_wf_c03 c hist m
 
+
+-- BEGIN PINS (written by bin/mkpins; do not edit by hand)
+/-- the Go functions this property's model and obligations were written against have exactly the
+pinned skeletons (SHA-256 prefix of the atom list) -/
+theorem pinned_skeletons_c03 :
+    pinsOk
+    [("Scipipe.FinalizePaths", "291fc0cefa37cea9"),
+     ("Scipipe.Task_Execute", "40fd1fec0c69deb2"),
+     ("Scipipe.Task_TempDir", "6d565a2ddd3d0eb2"),
+     ("Scipipe.Task_anyOutputsExist", "0609a842b7aaf7a8"),
+     ("Scipipe.Task_executeCommand", "98e77d849c0638cb"),
+     ("Scipipe.Task_finalizePaths", "9cd0530d4e86fa92"),
+     ("Scipipe.Task_formatCommand", "ccbe98735ce5c7d6")] = true := by decide
+-- END PINS
+
 end SciVerif.Tie
+#print axioms SciVerif.Tie.pinned_skeletons_c03
 #print axioms SciVerif.Tie.c03_converges_on_source
 #print axioms SciVerif.Tie.generated_wf_c03
 #print axioms SciVerif.Tie.generated_wf_c01_for_c03
